@@ -167,12 +167,14 @@ def record(module, items, first_id=1):
     return framework.pool_map(_record_one, jobs)
 
 
-def validate_calls(ctx, module, trace_module, trace_cfg, traces, label="c2s", overrides=None, max_rounds=6):
+def validate_calls(ctx, module, trace_module, trace_cfg, traces, label="c2s", overrides=None, max_rounds=6, timeout=None,
+                   kind_of=None):
     """TLC validates every recorded call.  A rejected event hides the later events of its trace,
     so the remainder of such a trace is validated again as a trace of its own (every event gets a
     verdict; a known finding never masks another input)."""
     total_rejected = 0
     rounds = 0
+    kind_of = dict(kind_of or {})          # trace id -> label (when traces of several origins are validated together)
     next_id = max([t["id"] for t in traces] + [0]) + 1
     ctx.add_eval(0, distinct_keys=[framework.jdump([t["cfg"], t["ev"][0]["args"]]) for t in traces
                                    if len(t["ev"]) == 1 and t["ev"][0]["args"][0]])
@@ -182,9 +184,12 @@ def validate_calls(ctx, module, trace_module, trace_cfg, traces, label="c2s", ov
         def sig_fn(t, bad, l):
             if not bad:
                 return {"module": module}
-            return default_sig(module, bad["a"], bad["args"][0], t["cfg"], {"spec": "rejected"}, bad["obs"])
+            sig = default_sig(module, bad["a"], bad["args"][0], t["cfg"], {"spec": "rejected"}, bad["obs"])
+            if t["id"] in kind_of:
+                sig["kind"] = kind_of[t["id"]]
+            return sig
         verdict = ctx.validate(SPEC_DIR, trace_module, trace_cfg, traces, label=label, sig_fn=sig_fn,
-                               overrides=overrides)
+                               overrides=overrides, timeout=timeout or ctx.pick(900, 1500))
         rest = []
         for t in traces:
             v = verdict.get(t["id"])
@@ -194,9 +199,24 @@ def validate_calls(ctx, module, trace_module, trace_cfg, traces, label="c2s", ov
             tail = t["ev"][v["at"]:]
             if tail:
                 rest.append({"id": next_id, "cfg": t["cfg"], "ev": tail})
+                if t["id"] in kind_of:
+                    kind_of[next_id] = kind_of[t["id"]]
                 next_id += 1
         traces = rest
     return total_rejected
+
+
+def validate_both(ctx, module, trace_module, trace_cfg, rel_traces, rand_traces, overrides=None):
+    """One TLC validation pass (one round of JVM starts) over the recorded outputs of TLC-enumerated inputs
+    (label s2c-rel) and of seeded random inputs (label c2s)."""
+    traces, kind_of = [], {}
+    for label, group in (("s2c-rel", rel_traces), ("c2s", rand_traces)):
+        for t in group:
+            t = dict(t)
+            t["id"] = len(traces) + 1
+            kind_of[t["id"]] = label
+            traces.append(t)
+    return validate_calls(ctx, module, trace_module, trace_cfg, traces, label="c2s", overrides=overrides, kind_of=kind_of)
 
 
 def replay_record(ctx, module, trace_module, trace_cfg, rec, overrides=None):
@@ -554,8 +574,12 @@ def _log_record(x, cfg):
     import logging
     import sys
     msg = bytes(x) if cfg["form"] == "bytes" else T(x)
+    class StrRaises:                      # an argument whose string conversion raises (repr works)
+        def __str__(self):
+            raise RuntimeError("boom\nforged")
+
     args = {"none": (), "str": ("x",), "two": (1, 2), "bytes": (b"\xe9\n",), "nl": ("a\nb",),
-            "dict": ({"x": "v\nw"},)}[cfg["args"]]
+            "dict": ({"x": "v\nw"},), "raises": (StrRaises(),)}[cfg["args"]]
     exc_info = None
     ek = cfg["exc"]
     if ek in ("simple", "multiline", "bytes"):
